@@ -3,7 +3,9 @@
  * for ARBITRARY (data, size) each sink's append() emits exactly those bytes (or their UTF-16/32 transcoding) and for ARBITRARY (ch, count)
  * append_char() emits exactly count copies.  libstdc++/libc stream functions are ENVIRONMENT: modelled below as logs.
  *  -DSINK=1 FILE*  2 ostream<char>  3 ostream<wchar_t>  4 ostream<char16_t>  5 ostream<char32_t>  6 string sink (ST::format)  7 string sink, Latin-1 (ST::format_latin_1)
- *  -DOP=1 append + append_char     -DOP=2 stream insertion of an ST::string (SINK 2..5)      -DN=<bytes of data (concrete)> */
+ *  -DOP=1 append + append_char     -DOP=2 stream insertion of an ST::string (SINK 2..5)      -DN=<bytes of data (concrete)>
+ *  -DOP=3 stream extraction into an ST::string (SINK 2..5): the token the stream's std::basic_string extraction yields is ENVIRONMENT (N arbitrary
+ *         non-whitespace units); the ST::string must hold exactly that token (its UTF-8 transcoding) under the build's default validation */
 #include "vp_harness.h"
 #include "k.h"
 #include "ref_utf.h"
@@ -49,6 +51,24 @@ void *vpx__ZNSt13basic_ostreamIDiSt11char_traitsIDiEE3putEDi(void *os, uint32_t 
   void *vpx__ZStlsISt11char_traitsI##CTAG##EERSt13basic_ostreamI##CTAG##T_ES5_PK##CTAG(void *os, UT *z) { for (uint64_t i = 0; i < LOGN + 1; i++) { VP_ACCESS(z + i, sizeof(UT)); if (!z[i]) break; log_unit((unit_t)z[i]); } return os; }
 /* the generic (non-char) C-string inserter has a different mangled name */
 #define ZS_MODEL(CTAG, UT) void *vpx__ZStlsI##CTAG##St11char_traitsI##CTAG##EERSt13basic_ostreamIT_T0_ES6_PKS3_(void *os, UT *z) { for (uint64_t i = 0; i < LOGN + 1; i++) { VP_ACCESS(z + i, sizeof(UT)); if (!z[i]) break; log_unit((unit_t)z[i]); } return os; }
+#if OP == 3
+/* extraction: std::basic_string<CT>() is an empty (pointer,length) view; operator>>(istream&, basic_string&) makes it view the token object */
+static unit_t *tok_obj;
+#define XS_MODEL(CTAG, UT)                                                                                                                       \
+  void vpx__ZNSt7__cxx1112basic_stringI##CTAG##St11char_traitsI##CTAG##ESaI##CTAG##EEC2Ev(void *self) { ((UT **)self)[0] = 0; ((uint64_t *)self)[1] = 0; } \
+  void *vpx__ZStrsI##CTAG##St11char_traitsI##CTAG##ESaI##CTAG##EERSt13basic_istreamIT_T0_ES7_RNSt7__cxx1112basic_stringIS4_S5_T1_EE(void *is, void *str) { ((UT **)str)[0] = (UT *)tok_obj; ((uint64_t *)str)[1] = N; return is; } \
+  UT *vpx__ZNKSt7__cxx1112basic_stringI##CTAG##St11char_traitsI##CTAG##ESaI##CTAG##EE5c_strEv(void *self) { return ((UT **)self)[0]; }           \
+  uint64_t vpx__ZNKSt7__cxx1112basic_stringI##CTAG##St11char_traitsI##CTAG##ESaI##CTAG##EE4sizeEv(void *self) { return ((uint64_t *)self)[1]; }
+#if SINK == 2
+XS_MODEL(c, uint8_t)
+#elif SINK == 3
+XS_MODEL(w, uint32_t)
+#elif SINK == 4
+XS_MODEL(Ds, uint16_t)
+#else
+XS_MODEL(Di, uint32_t)
+#endif
+#endif
 #if SINK == 2
 BS_MODEL(c, uint8_t)
 #elif SINK == 3
@@ -62,11 +82,80 @@ BS_MODEL(Di, uint32_t) ZS_MODEL(Di, uint32_t)
 uint64_t vp_nat_sink_c8(const void *, uint64_t, int, uint64_t, const void *, void *, uint64_t); uint64_t vp_nat_sink_wc(const void *, uint64_t, int, uint64_t, const void *, void *, uint64_t);
 uint64_t vp_nat_sink_c16(const void *, uint64_t, int, uint64_t, const void *, void *, uint64_t); uint64_t vp_nat_sink_c32(const void *, uint64_t, int, uint64_t, const void *, void *, uint64_t);
 uint64_t vp_nat_sink_stdio(const void *, uint64_t, int, uint64_t, void *, uint64_t);
+void vp_nat_extract_c8(const void *, uint64_t, void *); void vp_nat_extract_wc(const void *, uint64_t, void *); void vp_nat_extract_c16(const void *, uint64_t, void *); void vp_nat_extract_c32(const void *, uint64_t, void *);
 #endif
 REF_DECODE_U8(N + 1)
 REF_ENCODE_U16(N + 1)
 REF_ENCODE_U32(N + 1)
+#if OP == 3
+REF_DECODE_U16(N + 1)
+REF_DECODE_U32(N + 1)
+REF_ENCODE_U8(N + 1)
+VP_BUF_HELPERS(S, __typeof__(((str_t *)0)->f0), uint8_t, VP_SSO, 5)
+static int is_space(uint32_t u) { return u == 0x20 || (u >= 0x09 && u <= 0x0D); }
 
+static int extraction_main(void) {
+  /* the token: N arbitrary non-whitespace units (NUL and malformed sequences included) in an exactly-sized, NUL-terminated object */
+  unit_t sh[N + 1]; unit_t *t = (unit_t *)vp_exact((N + 1) * sizeof(unit_t));
+  for (int i = 0; i < N; i++) { sh[i] = (unit_t)(sizeof(unit_t) == 1 ? vp_in_u8() : sizeof(unit_t) == 2 ? vp_in_u16() : vp_in_u32()); ASSUME(!is_space(sh[i])); t[i] = sh[i]; }
+  t[N] = 0;
+  str_t s; uint8_t before[8]; S_mk(&s.f0, before);      /* the target holds an arbitrary previous value */
+  uint64_t bn = s.f0.f1;
+  /* expected: the token itself (narrow stream) or its UTF-8 transcoding (wide streams); ST::unicode_error exactly for a malformed token (default validation of this build: check_validity) */
+  ref_item it[N + 1]; uint8_t exp8[4 * N + 4]; uint64_t el = 0; int expect_throw = 0; uint64_t k;
+#if SINK == 2
+  k = ref_decode_u8(sh, N, it);
+  for (uint64_t i = 0; i < N; i++) { if (i < k && it[i].bad) expect_throw = 1; exp8[i] = sh[i]; }
+  el = N;
+#elif SINK == 4
+  k = ref_decode_u16(sh, N, it); expect_throw = ref_encode_u8(it, k, MODE_CHECK, exp8, &el);
+#else
+  k = ref_decode_u32(sh, N, it); expect_throw = ref_encode_u8(it, k, MODE_CHECK, exp8, &el);
+#endif
+#ifdef __CPROVER__
+  tok_obj = t;
+#if SINK == 2
+  vp_is_extract_c8(STREAM, &s);
+#elif SINK == 3
+  vp_is_extract_wc(STREAM, &s);
+#elif SINK == 4
+  vp_is_extract_c16(STREAM, &s);
+#else
+  vp_is_extract_c32(STREAM, &s);
+#endif
+#else
+#if SINK == 2
+  vp_nat_extract_c8(t, N, &s);
+#elif SINK == 3
+  vp_nat_extract_wc(t, N, &s);
+#elif SINK == 4
+  vp_nat_extract_c16(t, N, &s);
+#else
+  vp_nat_extract_c32(t, N, &s);
+#endif
+#endif
+  if (vp_exc_pending) {
+    ASSERT(vp_exc_kind == VP_EXC_UNICODE && expect_throw, "extraction throws only ST::unicode_error, only for a token that is malformed under the default validation");
+    vp_clear_exception();
+    ASSERT(S_inv(&s.f0) && S_eq(&s.f0, before, bn), "a rejected token leaves the target unchanged");
+    REACH("malformed token rejected");
+  } else {
+    ASSERT(!expect_throw, "a malformed token is rejected (default validation: check_validity)");
+    ASSERT(S_inv(&s.f0), "the extracted string is a valid string");
+    ASSERT(s.f0.f1 == el, "the string holds exactly the token (its UTF-8 transcoding), embedded NULs included");
+    for (uint64_t i = 0; i < 4 * N + 4; i++) if (i < el && i < s.f0.f1) ASSERT(s.f0.f0[i] == exp8[i], "the string holds exactly the token's units (transcoded to UTF-8), in order");
+  }
+  for (int i = 0; i < N; i++) ASSERT(t[i] == sh[i], "the token is not modified");
+  S_destroy(&s.f0);
+  ASSERT(vp_live_blocks == 0, "no leak");
+  REACH("end of harness");
+  return 0;
+}
+#endif
+
+#if OP == 3
+int vp_harness_main(void) { return extraction_main(); }
+#else
 int vp_harness_main(void) {
   uint8_t sh[N + 1]; uint8_t *d = (uint8_t *)vp_exact(N);
   for (int i = 0; i < N; i++) { sh[i] = vp_in_u8(); d[i] = sh[i]; }
@@ -152,3 +241,4 @@ int vp_harness_main(void) {
   REACH("end of harness");
   return 0;
 }
+#endif
